@@ -23,6 +23,46 @@ def _enum_part(exe, L, nparts, part):
     return r
 
 
+def manifest_worker(widx, nworkers, n):
+    """the same spellings where they enter ninja: as explicit / implicit / order-only input, validation, explicit and
+    implicit output, default target of a parsed manifest; judged by the manifest reference (C12), whose node identity
+    is the reference normal form"""
+    import itertools, random, collections
+    from ..probe import Probe
+    from . import C12
+    res = common.Result()
+    rnd = random.Random(common.sub_seed(PROP, 'manifest', widx))       # a fixed function of VERIF_SEED
+    alpha = [b"a", b"b", b".", b"/"]
+    short = [b"".join(t) for L_ in (1, 2, 3, 4) for t in itertools.product(alpha, repeat=L_)]
+    with Probe("fast") as probe:
+        ninja = C12.make_ninja(probe)
+        stats = collections.Counter()
+        for i in range(n):
+            def spelling():
+                if rnd.random() < 0.5:
+                    return rnd.choice(short)
+                return b"".join(rnd.choice(alpha) for _ in range(rnd.randint(5, 9)))
+            sp = [spelling() for _ in range(7)]
+            if (i * nworkers + widx) % 3 == 0:
+                sp = [b"d/" + x for x in sp]
+            text = (b"rule r\n  command = c $in $out\n"
+                    b"build " + sp[4] + b" | " + sp[5] + b": r src0\n"
+                    b"build out: r " + sp[0] + b" | " + sp[1] + b" || " + sp[2] + b" |@ " + sp[3] + b"\n"
+                    b"build out2: r " + sp[6] + b" " + sp[0] + b"\n")
+            if rnd.random() < 0.5:
+                text += b"default " + sp[4] + b"\n"
+            files = {b"build.ninja": text}
+            acc0 = stats.get('ref_accept', 0)
+            out = C12.check_one(files, ninja, None, stats)
+            nt = any(C12.mref.canon(x) != x for x in sp)
+            res.case(dict(manifest=text.decode('latin-1')), nt, ['m:' + ('accepted' if stats.get('ref_accept', 0) > acc0 else 'rejected')],
+                     sample=dict(manifest=text.decode('latin-1')) if nt else None)
+            if out is not None:
+                res.failures.append(dict(case=dict(manifest=text.decode('latin-1')), why="manifest level: " + out[0]))
+                break
+    return res
+
+
 def run(tier):
     L = 12 if tier == "thorough" else 10
     ck = common.Check(PROP, tier, "exploration",
@@ -38,6 +78,15 @@ def run(tier):
     fres, viol = fuzz.run_target("fuzz_canon", runs=(3000000 if tier == "thorough" else 150000), max_len=4096,
                                  workers=common.NCPU)
     ck.merge(fres)
+    mres = common.run_workers(manifest_worker, [(w, common.NCPU, (6000 if tier == "thorough" else 400)) for w in range(common.NCPU)])
+    ck.merge(mres)
+    ck.extra_cov['manifest_level_cases'] = mres.evaluations
+    ck.rule += (" Manifest level: generated build statements with spellings over the same alphabet in every position (explicit, implicit, order-only input, "
+                "validation, explicit and implicit output, default) parsed by ninja and compared with the manifest reference, whose node identity is the "
+                "reference normal form (two spellings name one file iff their normal forms are equal).")
+    for f in mres.failures:
+        if not f.get("harness_error"):
+            ck.violation(f["case"], f["why"])
     for data, why in viol:
         ck.violation(data, why)
     for f in res.failures:
@@ -53,6 +102,19 @@ def run(tier):
 
 def replay(path):
     data = open(path, "rb").read()
+    if path.endswith(".json") and "manifest" in json.load(open(path)).get("case", {}):
+        import collections
+        from ..probe import Probe
+        from . import C12
+        case = json.load(open(path))["case"]
+        with Probe("san") as probe:
+            out = C12.check_one({b"build.ninja": case["manifest"].encode('latin-1')}, C12.make_ninja(probe), None, collections.Counter())
+        if out:
+            print("finding:", out[0][:800])
+            print("VIOLATION property=%s replay=%s" % (PROP, path))
+            return 1
+        print("replay: no violation")
+        return 0
     if path.endswith(".json"):
         case = json.load(open(path))["case"]
         exe = build.program("enum_canon", "san")
